@@ -19,6 +19,7 @@ remap_filter_function_complete remap_filter_function_compose remap_id remap_id_l
 remap_isEigh_gen remap_liouville remap_liouville_model remap_liouville_swap remap_propagators
 remap_propagators_gen remap_scatter_gather remap_segProp remap_segProp_gen remap_total_propagator
 swapFin_apply swap_kron swap_kronFin swap_product_basis tensor_transpose_pi'''.split()
+PINS = ['pinRemap']
 GEN_SITES = ['einsum:numeric_calculate_control_matrix_from_scratch_0']
 COMPONENTS = ['pauli_remap']
 RULES = ['correspondence: remap_pauli_basis_elements vs the Lean index map for all permutations, '
@@ -47,7 +48,7 @@ def correspondence(ctx):
 
 def make_pulse(rng, n, traceless, n_dt):
     d = 2**n
-    n_c, n_n = int(rng.integers(1, 3)), int(rng.integers(2, 4))
+    n_c, n_n = int(rng.integers(1, 5)), int(rng.integers(2, 5))
     P = gens.PAULI
     def prod_op():
         facs = [P[int(rng.integers(0, 4))]*rng.uniform(0.5, 1.5) for _ in range(n)]
@@ -85,12 +86,17 @@ def check_remap(ctx, case):
         p.total_propagator_liouville
     mapping = None
     new_nids = list(desc['n_ids'])
+    new_cids = list(desc['c_ids'])
     if case['remap_ids']:
-        # reverse the alphabetical order of the noise identifiers
-        srt = sorted(desc['n_ids'])
-        mapping = {i: 'zyxw'[srt.index(i)] for i in desc['n_ids']}
-        mapping.update({i: i for i in desc['c_ids']})
+        # rename control and noise identifiers so that their sort order is permuted arbitrarily
+        # (reversals, cyclic shifts, ... : every permutation of up to four operators occurs)
+        mrng = np.random.default_rng(case['seed'] + 1)
+        cl = [str(x) for x in mrng.permutation(['p', 'q', 'r', 's'])[:len(desc['c_ids'])]]
+        nl = [str(x) for x in mrng.permutation(['w', 'x', 'y', 'z'])[:len(desc['n_ids'])]]
+        mapping = dict(zip(desc['c_ids'], cl))
+        mapping.update(dict(zip(desc['n_ids'], nl)))
         new_nids = [mapping[i] for i in desc['n_ids']]
+        new_cids = [mapping[i] for i in desc['c_ids']]
     key = (n, tuple(order), st, case['remap_ids'], case['traceless'], case['seed'])
     ctx.count(key, nontrivial=order != sorted(order))
     try:
@@ -103,6 +109,7 @@ def check_remap(ctx, case):
     ref_desc['c_opers'] = np.array([permute_op(o, order, n) for o in desc['c_opers']])
     ref_desc['n_opers'] = np.array([permute_op(o, order, n) for o in desc['n_opers']])
     ref_desc['n_ids'] = new_nids
+    ref_desc['c_ids'] = new_cids
     ref = gens.build(ref_desc)
     probs = []
     if not (r == ref):
